@@ -191,5 +191,6 @@ func Caps(rt *rapid.T) refterm.Caps {
 	c.UserCursorStyle = rapid.IntRange(0, 6).Draw(rt, "usercursor")
 	c.AppID = rapid.SampledFrom([]string{"", "orig-app"}).Draw(rt, "appid")
 	c.DECRPMAbsent = rapid.SampledFrom([]int{0, 2, 1, 0}).Draw(rt, "decrpm-absent")
+	c.TcapNoValue = rapid.IntRange(0, 3).Draw(rt, "tcap-novalue") == 2
 	return c
 }
